@@ -1235,10 +1235,14 @@ func (fv *FuncVerifier) inlineLoopSpec(s ast.Stmt) (*LoopSpec, *FuncSpec, int) {
 type modSet struct {
 	vars  map[types.Object]bool
 	heaps bool
+	// fields: local struct variables that are only ever assigned field by field (x.f = ...):
+	// the loop havocs those fields and keeps the others
+	fields map[types.Object]map[string]bool
+	whole  map[types.Object]bool
 }
 
 func (fv *FuncVerifier) modset(n ast.Node) *modSet {
-	ms := &modSet{vars: map[types.Object]bool{}}
+	ms := &modSet{vars: map[types.Object]bool{}, fields: map[types.Object]map[string]bool{}, whole: map[types.Object]bool{}}
 	info := fv.info()
 	var mark func(e ast.Expr)
 	mark = func(e ast.Expr) {
@@ -1246,14 +1250,29 @@ func (fv *FuncVerifier) modset(n ast.Node) *modSet {
 		case *ast.Ident:
 			if obj := info.Uses[e]; obj != nil {
 				ms.vars[obj] = true
+				ms.whole[obj] = true
 			} else if obj := info.Defs[e]; obj != nil {
 				ms.vars[obj] = true
+				ms.whole[obj] = true
 			}
 		case *ast.SelectorExpr:
 			if t := info.TypeOf(e.X); t != nil {
 				if _, ok := t.Underlying().(*types.Pointer); ok {
 					ms.heaps = true
 					return
+				}
+				// x.f = ... on a local struct value: only field f changes
+				if id, ok := ast.Unparen(e.X).(*ast.Ident); ok {
+					if _, isStruct := t.Underlying().(*types.Struct); isStruct {
+						if obj := info.Uses[id]; obj != nil {
+							ms.vars[obj] = true
+							if ms.fields[obj] == nil {
+								ms.fields[obj] = map[string]bool{}
+							}
+							ms.fields[obj][e.Sel.Name] = true
+							return
+						}
+					}
 				}
 			}
 			mark(e.X)
@@ -1385,6 +1404,7 @@ func (fv *FuncVerifier) cutLoop(cfg *loopCfg, st *State) *State {
 	ms := fv.modset(loop)
 	for _, o := range cfg.extraMods {
 		ms.vars[o] = true
+		ms.whole[o] = true
 	}
 	if cfg.rfo != nil && cfg.rfo.heaps {
 		ms.heaps = true
@@ -1403,6 +1423,30 @@ func (fv *FuncVerifier) cutLoop(cfg *loopCfg, st *State) *State {
 	for _, nm := range names {
 		obj := objs[nm]
 		old := head.vars[obj]
+		if fs := ms.fields[obj]; len(fs) > 0 && !ms.whole[obj] && old.Sort != nil && old.Sort.Kind == KStruct {
+			// only some fields of this local struct are assigned in the loop: the others keep their value
+			cur := old
+			ok := true
+			var fnames []string
+			for f := range fs {
+				fnames = append(fnames, f)
+			}
+			sort.Strings(fnames)
+			for _, f := range fnames {
+				fi := old.Sort.field(f)
+				if fi == nil {
+					ok = false
+					break
+				}
+				cur = fv.u.setField(cur, f, fv.u.freshConst(obj.Name()+"_"+f, fi.Sort))
+			}
+			if ok {
+				nv := fv.def(obj.Name(), cur)
+				head.vars[obj] = nv
+				fv.assumeTyped(head, nv, obj.Type())
+				continue
+			}
+		}
 		nv := fv.u.freshConst(obj.Name(), old.Sort)
 		head.vars[obj] = nv
 		fv.assumeTyped(head, nv, obj.Type())
